@@ -154,7 +154,7 @@ type Opt struct {
 	// StdinPieces > 1 delivers Stdin in that many pieces with a pause between them (a producer that is slower
 	// than crd: reads return short).
 	StdinPieces int
-	// StdoutKind "socket": the standard output of the child is a socket instead of a pipe.
+	// StdoutKind "socket": the standard output of the child is a socket instead of a pipe; "pty": a pseudo terminal.
 	StdoutKind string
 	// StdinDelay makes the producer of the standard input start late: nothing arrives (and the pipe stays open) for
 	// that long. It is a property of the environment, never part of a verdict.
@@ -252,6 +252,30 @@ func (r *Runner) Run(o Opt, args ...string) *Result {
 		}()
 		after = append(after, func() { syscall.Close(fds[1]) })
 	}
+	if o.StdoutKind == "pty" {
+		// the standard output of the child is a (pseudo) terminal; what it prints is read from the master side, with
+		// the output processing of the line discipline switched off
+		m, t, err := openPty()
+		if err != nil {
+			return &Result{Argv: append([]string{}, args...), StartErr: err, Exit: -1}
+		}
+		cmd.Stdout = t
+		sockDone = make(chan struct{})
+		go func() {
+			defer close(sockDone)
+			buf := make([]byte, 65536)
+			for {
+				n, err := m.Read(buf)
+				if n > 0 {
+					so.Write(buf[:n])
+				}
+				if err != nil {
+					return // EIO once the last descriptor of the terminal side is closed
+				}
+			}
+		}()
+		after = append(after, func() { m.Close() })
+	}
 	res := &Result{Argv: append([]string{}, args...)}
 	err := cmd.Start()
 	if err == nil {
@@ -261,7 +285,15 @@ func (r *Runner) Run(o Opt, args ...string) *Result {
 	}
 	if sockDone != nil {
 		cmd.Stdout.(*os.File).Close()
-		<-sockDone
+		if o.StdoutKind == "pty" {
+			// the master never sees an end of file while we hold it: give the reader a moment, then close it
+			select {
+			case <-sockDone:
+			case <-time.After(300 * time.Millisecond):
+			}
+		} else {
+			<-sockDone
+		}
 	}
 	res.Stdout = so.b.Bytes()
 	res.Stderr = se.b.Bytes()
@@ -531,6 +563,36 @@ func PtyTypable(data []byte) bool {
 
 // ptyStdin opens a pseudo terminal, types the data on it (a final line feed is added when missing) followed by
 // a run of end-of-file keys, and returns the terminal side for the child.
+// openPty opens a pseudo terminal pair (master, terminal side) with output processing off.
+func openPty() (*os.File, *os.File, error) {
+	m, err := os.OpenFile("/dev/ptmx", os.O_RDWR|syscall.O_NOCTTY, 0)
+	if err != nil {
+		return nil, nil, err
+	}
+	var n uint32
+	var unlock int32
+	if _, _, e := syscall.Syscall(syscall.SYS_IOCTL, m.Fd(), syscall.TIOCSPTLCK, uintptr(unsafe.Pointer(&unlock))); e != 0 {
+		m.Close()
+		return nil, nil, e
+	}
+	if _, _, e := syscall.Syscall(syscall.SYS_IOCTL, m.Fd(), syscall.TIOCGPTN, uintptr(unsafe.Pointer(&n))); e != 0 {
+		m.Close()
+		return nil, nil, e
+	}
+	t, err := os.OpenFile(fmt.Sprintf("/dev/pts/%d", n), os.O_RDWR|syscall.O_NOCTTY, 0)
+	if err != nil {
+		m.Close()
+		return nil, nil, err
+	}
+	var tio syscall.Termios
+	if _, _, e := syscall.Syscall(syscall.SYS_IOCTL, t.Fd(), syscall.TCGETS, uintptr(unsafe.Pointer(&tio))); e == 0 {
+		tio.Oflag &^= syscall.OPOST
+		tio.Lflag &^= syscall.ECHO
+		syscall.Syscall(syscall.SYS_IOCTL, t.Fd(), syscall.TCSETS, uintptr(unsafe.Pointer(&tio)))
+	}
+	return m, t, nil
+}
+
 func ptyStdin(data []byte, eofKeys int) (*os.File, func(), error) {
 	m, err := os.OpenFile("/dev/ptmx", os.O_RDWR|syscall.O_NOCTTY, 0)
 	if err != nil {
